@@ -86,17 +86,21 @@ def _try(fn):
         return None
 
 
-def check_dt(acc, pendulum, z, f, kw, durations=True):
+def check_dt(acc, pendulum, z, f, kw, durations=True, fold=1):
+    """fold: the raw fold flag of the receiver (1 = as pendulum.datetime() builds it, 0 = as conversions and
+    arithmetic leave it); on an unambiguous start it must not influence the result (route independence)."""
     if not variable(kw):
         return
     if z is None:
-        x = pendulum.DateTime(*f)
+        x = pendulum.DateTime(*f, fold=fold)
     else:
-        x = pendulum.DateTime.create(*f, tz=_tz(pendulum, z))
+        x = pendulum.DateTime.create(*f, tz=_tz(pendulum, z), fold=fold)
         if obs.fields(x) != tuple(f):
             acc.c["skipped_start_not_valid_wall"] += 1
             return
-    case = {"kind": "dt", "z": z, "f": list(f), "kw": kw}
+        if fold == 0 and not isinstance(z, int) and obs.is_repeated_wall(z, f):
+            return      # a different instant than the fold=1 start: not the same model state
+    case = {"kind": "dt", "z": z, "f": list(f), "kw": kw, "fold": fold}
     tzname = x.timezone_name
     for name, sign, fn in (("add", 1, lambda: x.add(**kw)), ("subtract", -1, lambda: x.subtract(**kw)),
                            ("add-negated", -1, lambda: x.add(**{k: -v for k, v in kw.items()}))):
@@ -254,6 +258,7 @@ def run_shard(shard):
                         if start is None or add_wall(start, kw, 1) != tgt:
                             continue
                         check_dt(acc, pendulum, z, start, kw, durations=True)
+                        check_dt(acc, pendulum, z, start, kw, durations=False, fold=0)
             acc.sample({"zone": z, "targets": "skipped/repeated wall times of its transitions"})
     return acc.result()
 
@@ -261,7 +266,7 @@ def run_shard(shard):
 def replay_case(case, acc):
     import pendulum
     if case["kind"] == "dt":
-        check_dt(acc, pendulum, case["z"], tuple(case["f"]), case["kw"], durations=True)
+        check_dt(acc, pendulum, case["z"], tuple(case["f"]), case["kw"], durations=True, fold=case.get("fold", 1))
     else:
         check_date(acc, pendulum, tuple(case["f"]), case["kw"])
 
